@@ -85,9 +85,21 @@ impl<'a> Ctx<'a> {
 	/// Compare an observed batch (indices into invs, in order) with the expected hooks.
 	/// Returns true if the batch ended with a hard failure.
 	#[allow(clippy::too_many_arguments)]
-	fn batch(&mut self, rep: &mut Report, what: &str, owner_hooks: &[String], typ: &str, observed: &[usize], env: &BTreeMap<String, String>, complete: bool) -> bool {
+	fn batch(
+		&mut self,
+		rep: &mut Report,
+		what: &str,
+		owner_hooks: &[String],
+		typ: &str,
+		observed: &[usize],
+		env: &BTreeMap<String, String>,
+		complete: bool,
+	) -> bool {
 		let cfg = &self.w.plan.config;
-		let want: Vec<&HookCfg> = expect::expand_hooks(cfg, owner_hooks).into_iter().filter(|h| h.types.iter().any(|t| t == typ)).collect();
+		let want: Vec<&HookCfg> = expect::expand_hooks(cfg, owner_hooks)
+			.into_iter()
+			.filter(|h| h.types.iter().any(|t| t == typ))
+			.collect();
 		rep.probe(&format!("c10.batches.{}", typ), 1);
 		if want.len() > 1 {
 			rep.probe("c10.batches_with_several_hooks", 1);
@@ -97,13 +109,38 @@ impl<'a> Ctx<'a> {
 		for (pos, h) in want.iter().enumerate() {
 			if k >= observed.len() {
 				if complete && !failed {
-					rep.add(Violation::new("C10", "hook_not_run", typ, what, format!("expected {:?}, ran {:?}", want.iter().map(|h| h.name.as_str()).collect::<Vec<_>>(), observed.iter().map(|i| self.invs[*i].name.as_str()).collect::<Vec<_>>())));
+					rep.add(Violation::new(
+						"C10",
+						"hook_not_run",
+						typ,
+						what,
+						format!(
+							"expected {:?}, ran {:?}",
+							want.iter().map(|h| h.name.as_str()).collect::<Vec<_>>(),
+							observed
+								.iter()
+								.map(|i| self.invs[*i].name.as_str())
+								.collect::<Vec<_>>()
+						),
+					));
 				}
 				break;
 			}
 			let inv = &self.invs[observed[k]];
 			if inv.name != h.name {
-				rep.add(Violation::new("C10", "hook_order_or_selection", typ, what, format!("position {}: expected {}, ran {} (expected list {:?})", pos, h.name, inv.name, want.iter().map(|h| h.name.as_str()).collect::<Vec<_>>())));
+				rep.add(Violation::new(
+					"C10",
+					"hook_order_or_selection",
+					typ,
+					what,
+					format!(
+						"position {}: expected {}, ran {} (expected list {:?})",
+						pos,
+						h.name,
+						inv.name,
+						want.iter().map(|h| h.name.as_str()).collect::<Vec<_>>()
+					),
+				));
 				break;
 			}
 			self.used.insert(observed[k]);
@@ -118,24 +155,64 @@ impl<'a> Ctx<'a> {
 						Some(_) => "wrong_layer",
 						None => "variable_missing",
 					};
-					rep.add(Violation::new("C10", "hook_environment", cause, what, format!("hook {} {}: {} = {:?}, expected {:?}", h.name, typ, key, got, exp)));
+					rep.add(Violation::new(
+						"C10",
+						"hook_environment",
+						cause,
+						what,
+						format!(
+							"hook {} {}: {} = {:?}, expected {:?}",
+							h.name, typ, key, got, exp
+						),
+					));
 				} else if exp.is_some() {
 					rep.probe("c10.env_values_checked", 1);
 				}
 			}
 			// stdin_str template
 			if h.stdin_str.is_some() {
-				let want_in = format!("in-{} {}|{}", h.name, env.get("VK0").cloned().unwrap_or_default(), env.get("VK1").cloned().unwrap_or_default());
-				let got_in = self.w.hook_stdin.get(&inv.id).map(|b| String::from_utf8_lossy(b).to_string()).unwrap_or_default();
+				let want_in = format!(
+					"in-{} {}|{}",
+					h.name,
+					env.get("VK0").cloned().unwrap_or_default(),
+					env.get("VK1").cloned().unwrap_or_default()
+				);
+				let got_in = self
+					.w
+					.hook_stdin
+					.get(&inv.id)
+					.map(|b| String::from_utf8_lossy(b).to_string())
+					.unwrap_or_default();
 				if got_in != want_in || !inv.stdin_piped {
-					rep.add(Violation::new("C10", "hook_stdin", "", what, format!("hook {}: stdin {:?}, expected {:?}", h.name, got_in, want_in)));
+					rep.add(Violation::new(
+						"C10",
+						"hook_stdin",
+						"",
+						what,
+						format!(
+							"hook {}: stdin {:?}, expected {:?}",
+							h.name, got_in, want_in
+						),
+					));
 				}
 				rep.probe("c10.stdin_checked", 1);
 			}
 			if let Some(t) = &h.stdout {
-				let want_out = t.replace(super::super::plan::SCRATCH, &self.w.scratch.to_string_lossy());
+				let want_out = t.replace(
+					super::super::plan::SCRATCH,
+					&self.w.scratch.to_string_lossy(),
+				);
 				if inv.stdout.as_deref() != Some(want_out.as_str()) {
-					rep.add(Violation::new("C10", "hook_stdout", "", what, format!("hook {}: stdout {:?}, expected {:?}", h.name, inv.stdout, want_out)));
+					rep.add(Violation::new(
+						"C10",
+						"hook_stdout",
+						"",
+						what,
+						format!(
+							"hook {}: stdout {:?}, expected {:?}",
+							h.name, inv.stdout, want_out
+						),
+					));
 				}
 			}
 			k += 1;
@@ -144,7 +221,16 @@ impl<'a> Ctx<'a> {
 				rep.probe("c10.hard_failures", 1);
 				// a non-zero exit aborts the operation: nothing else of this batch may run
 				if k < observed.len() {
-					rep.add(Violation::new("C10", "batch_continued_after_hard_failure", typ, what, format!("hook {} failed hard, yet {} ran", h.name, self.invs[observed[k]].name)));
+					rep.add(Violation::new(
+						"C10",
+						"batch_continued_after_hard_failure",
+						typ,
+						what,
+						format!(
+							"hook {} failed hard, yet {} ran",
+							h.name, self.invs[observed[k]].name
+						),
+					));
 				}
 				break;
 			} else if inv.code.map(|c| c != Some(0)).unwrap_or(false) {
@@ -152,7 +238,16 @@ impl<'a> Ctx<'a> {
 			}
 		}
 		if !failed && k < observed.len() {
-			rep.add(Violation::new("C10", "unexpected_hook_in_batch", typ, what, format!("{} ran although it is not selected for {}", self.invs[observed[k]].name, typ)));
+			rep.add(Violation::new(
+				"C10",
+				"unexpected_hook_in_batch",
+				typ,
+				what,
+				format!(
+					"{} ran although it is not selected for {}",
+					self.invs[observed[k]].name, typ
+				),
+			));
 		}
 		for i in observed {
 			self.used.insert(*i);
@@ -168,7 +263,11 @@ pub fn check(r: &RunResult, rep: &mut Report) {
 	}
 	let cfg = &w.plan.config;
 	let proc_env = &w.plan.world.proc_env;
-	let mut cx = Ctx { w, invs: invocations(w), used: BTreeSet::new() };
+	let mut cx = Ctx {
+		w,
+		invs: invocations(w),
+		used: BTreeSet::new(),
+	};
 	if cx.invs.is_empty() {
 		return;
 	}
@@ -179,7 +278,13 @@ pub fn check(r: &RunResult, rep: &mut Report) {
 		for i in cx.invs.iter() {
 			match last_exit {
 				Some(x) if i.seq > x => {}
-				_ => rep.add(Violation::new("C10", "hooks_overlap", "", "", format!("hook {} was started before the previous one exited", i.name))),
+				_ => rep.add(Violation::new(
+					"C10",
+					"hooks_overlap",
+					"",
+					"",
+					format!("hook {} was started before the previous one exited", i.name),
+				)),
 			}
 			last_exit = i.exit_seq;
 		}
@@ -189,10 +294,21 @@ pub fn check(r: &RunResult, rep: &mut Report) {
 
 	// ---- A. file batches, anchored on the storage seam's opens and writes ----
 	let mut last_anchor: BTreeMap<String, u64> = BTreeMap::new(); // path -> seq after which pre hooks may lie
-	let opens: Vec<(u64, u64, String, bool)> = w.trace.iter().filter_map(|e| match &e.ev {
-		Ev::FsOpen { id, path, write: true, existed, err: None, .. } => Some((e.seq, *id, path.clone(), *existed)),
-		_ => None,
-	}).collect();
+	let opens: Vec<(u64, u64, String, bool)> = w
+		.trace
+		.iter()
+		.filter_map(|e| match &e.ev {
+			Ev::FsOpen {
+				id,
+				path,
+				write: true,
+				existed,
+				err: None,
+				..
+			} => Some((e.seq, *id, path.clone(), *existed)),
+			_ => None,
+		})
+		.collect();
 	for (open_seq, id, path, existed) in opens.iter() {
 		let sel = match sel_of(path) {
 			Some(s) => s,
@@ -200,7 +316,10 @@ pub fn check(r: &RunResult, rep: &mut Report) {
 		};
 		let (kind, owner) = match sel.split(':').next() {
 			Some("account") => ("account", sel[8..].to_string()),
-			Some(k) => (if k == "pk" { "pk" } else { "crt" }, sel.split(':').nth(1).unwrap_or("").to_string()),
+			Some(k) => (
+				if k == "pk" { "pk" } else { "crt" },
+				sel.split(':').nth(1).unwrap_or("").to_string(),
+			),
 			None => continue,
 		};
 		let (hooks, env): (Vec<String>, BTreeMap<String, String>) = if kind == "account" {
@@ -211,29 +330,67 @@ pub fn check(r: &RunResult, rep: &mut Report) {
 		} else {
 			let i: usize = owner.parse().unwrap_or(0);
 			let c = &cfg.certificates[i];
-			(c.hooks.clone(), layered(&[proc_env, &cfg.global.env, &c.env]))
+			(
+				c.hooks.clone(),
+				layered(&[proc_env, &cfg.global.env, &c.env]),
+			)
 		};
 		let after = last_anchor.get(path).copied().unwrap_or(0);
-		let write_seq = w.trace.iter().find(|e| matches!(&e.ev, Ev::FsWrite { id: i, err: None, .. } if i == id)).map(|e| e.seq);
-		let next_open = opens.iter().filter(|o| o.2 == *path && o.0 > *open_seq).map(|o| o.0).min().unwrap_or(u64::MAX);
+		let write_seq = w
+			.trace
+			.iter()
+			.find(|e| matches!(&e.ev, Ev::FsWrite { id: i, err: None, .. } if i == id))
+			.map(|e| e.seq);
+		let next_open = opens
+			.iter()
+			.filter(|o| o.2 == *path && o.0 > *open_seq)
+			.map(|o| o.0)
+			.min()
+			.unwrap_or(u64::MAX);
 		let with_path = |cx: &Ctx, lo: u64, hi: u64| -> Vec<usize> {
-			cx.invs.iter().enumerate().filter(|(_, i)| i.seq > lo && i.seq < hi && hook_arg(&i.argv, "file_path") == Some(path.as_str())).map(|(k, _)| k).collect()
+			cx.invs
+				.iter()
+				.enumerate()
+				.filter(|(_, i)| {
+					i.seq > lo
+						&& i.seq < hi && hook_arg(&i.argv, "file_path") == Some(path.as_str())
+				})
+				.map(|(k, _)| k)
+				.collect()
 		};
-		let pre_t = if *existed { "file-pre-edit" } else { "file-pre-create" };
-		let post_t = if *existed { "file-post-edit" } else { "file-post-create" };
+		let pre_t = if *existed {
+			"file-pre-edit"
+		} else {
+			"file-pre-create"
+		};
+		let post_t = if *existed {
+			"file-post-edit"
+		} else {
+			"file-post-create"
+		};
 		let pre = with_path(&cx, after, *open_seq);
 		// earlier attempts may have died in their pre batch (hard failure => no open at all): the
 		// hooks seen since the last anchor are then several consecutive pre batches
 		let mut rest: &[usize] = &pre;
 		loop {
-			let n_want = expect::expand_hooks(cfg, &hooks).into_iter().filter(|h| h.types.iter().any(|t| t == pre_t)).count();
+			let n_want = expect::expand_hooks(cfg, &hooks)
+				.into_iter()
+				.filter(|h| h.types.iter().any(|t| t == pre_t))
+				.count();
 			// one batch = up to n_want invocations, ending early at the first hard failure
 			let mut take = 0;
-			let wanted: Vec<&HookCfg> = expect::expand_hooks(cfg, &hooks).into_iter().filter(|h| h.types.iter().any(|t| t == pre_t)).collect();
+			let wanted: Vec<&HookCfg> = expect::expand_hooks(cfg, &hooks)
+				.into_iter()
+				.filter(|h| h.types.iter().any(|t| t == pre_t))
+				.collect();
 			while take < rest.len() && take < n_want {
 				let inv = &cx.invs[rest[take]];
 				take += 1;
-				if wanted.get(take - 1).map(|h| hard_fail(h, inv.code)).unwrap_or(false) {
+				if wanted
+					.get(take - 1)
+					.map(|h| hard_fail(h, inv.code))
+					.unwrap_or(false)
+				{
 					break;
 				}
 			}
@@ -252,10 +409,24 @@ pub fn check(r: &RunResult, rep: &mut Report) {
 		for k in pre.iter() {
 			let a = &cx.invs[*k].argv;
 			let p = std::path::Path::new(path);
-			let dir = p.parent().map(|d| d.to_string_lossy().to_string()).unwrap_or_default();
-			let fname = p.file_name().map(|d| d.to_string_lossy().to_string()).unwrap_or_default();
-			if hook_arg(a, "f_file_name") != Some(fname.as_str()) || hook_arg(a, "file_directory") != Some(dir.as_str()) {
-				rep.add(Violation::new("C10", "file_hook_variables", "", kind, format!("{:?}", a)));
+			let dir = p
+				.parent()
+				.map(|d| d.to_string_lossy().to_string())
+				.unwrap_or_default();
+			let fname = p
+				.file_name()
+				.map(|d| d.to_string_lossy().to_string())
+				.unwrap_or_default();
+			if hook_arg(a, "f_file_name") != Some(fname.as_str())
+				|| hook_arg(a, "file_directory") != Some(dir.as_str())
+			{
+				rep.add(Violation::new(
+					"C10",
+					"file_hook_variables",
+					"",
+					kind,
+					format!("{:?}", a),
+				));
 			}
 		}
 		if let Some(ws) = write_seq {
@@ -265,7 +436,10 @@ pub fn check(r: &RunResult, rep: &mut Report) {
 			// a later pre batch for the same path would also carry this file_path: split at the
 			// first hook of a pre type that follows a full post batch -- done by anchoring the next
 			// open's pre batch AFTER the last post hook
-			let wanted_post: Vec<&HookCfg> = expect::expand_hooks(cfg, &hooks).into_iter().filter(|h| h.types.iter().any(|t| t == post_t)).collect();
+			let wanted_post: Vec<&HookCfg> = expect::expand_hooks(cfg, &hooks)
+				.into_iter()
+				.filter(|h| h.types.iter().any(|t| t == post_t))
+				.collect();
 			let want_post = wanted_post.len();
 			let mut n = 0;
 			while n < post.len() && n < want_post {
@@ -275,9 +449,16 @@ pub fn check(r: &RunResult, rep: &mut Report) {
 				}
 			}
 			let post: Vec<usize> = post.into_iter().take(n).collect();
-			let cut = w.trace.iter().any(|e| e.seq > ws && matches!(&e.ev, Ev::Stopped { .. })) && post.len() < want_post;
+			let cut = w
+				.trace
+				.iter()
+				.any(|e| e.seq > ws && matches!(&e.ev, Ev::Stopped { .. }))
+				&& post.len() < want_post;
 			cx.batch(rep, kind, &hooks, post_t, &post, &env, !cut);
-			let end = post.last().map(|k| cx.invs[*k].exit_seq.unwrap_or(cx.invs[*k].seq)).unwrap_or(ws);
+			let end = post
+				.last()
+				.map(|k| cx.invs[*k].exit_seq.unwrap_or(cx.invs[*k].seq))
+				.unwrap_or(ws);
 			last_anchor.insert(path.clone(), end);
 		} else {
 			last_anchor.insert(path.clone(), *open_seq);
@@ -293,7 +474,10 @@ pub fn check(r: &RunResult, rep: &mut Report) {
 		}
 		if let Some(p) = hook_arg(&i.argv, "file_path") {
 			if !p.is_empty() {
-				trailing.entry(p.to_string()).or_insert_with(Vec::new).push(k);
+				trailing
+					.entry(p.to_string())
+					.or_insert_with(Vec::new)
+					.push(k);
 			}
 		}
 	}
@@ -309,13 +493,30 @@ pub fn check(r: &RunResult, rep: &mut Report) {
 				None => continue,
 			}
 		} else {
-			let i: usize = sel.split(':').nth(1).and_then(|x| x.parse().ok()).unwrap_or(0);
+			let i: usize = sel
+				.split(':')
+				.nth(1)
+				.and_then(|x| x.parse().ok())
+				.unwrap_or(0);
 			let c = &cfg.certificates[i];
-			(c.hooks.clone(), layered(&[proc_env, &cfg.global.env, &c.env]))
+			(
+				c.hooks.clone(),
+				layered(&[proc_env, &cfg.global.env, &c.env]),
+			)
 		};
-		let existed = opens.iter().any(|o| &o.2 == path) || w.plan.world.pre_files.iter().any(|f| toml_emit::path_of(&w.plan, &w.scratch, &f.target).as_deref() == Some(path.as_str()));
-		let pre_t = if existed { "file-pre-edit" } else { "file-pre-create" };
-		let wanted: Vec<&HookCfg> = expect::expand_hooks(cfg, &hooks).into_iter().filter(|h| h.types.iter().any(|t| t == pre_t)).collect();
+		let existed = opens.iter().any(|o| &o.2 == path)
+			|| w.plan.world.pre_files.iter().any(|f| {
+				toml_emit::path_of(&w.plan, &w.scratch, &f.target).as_deref() == Some(path.as_str())
+			});
+		let pre_t = if existed {
+			"file-pre-edit"
+		} else {
+			"file-pre-create"
+		};
+		let wanted: Vec<&HookCfg> = expect::expand_hooks(cfg, &hooks)
+			.into_iter()
+			.filter(|h| h.types.iter().any(|t| t == pre_t))
+			.collect();
 		let mut rest: &[usize] = list;
 		while !rest.is_empty() {
 			let mut take = 0;
@@ -339,14 +540,30 @@ pub fn check(r: &RunResult, rep: &mut Report) {
 			let cut = match last.and_then(|i| i.exit_seq) {
 				None => true,
 				Some(x) => {
-					let t_exit = w.trace.iter().find(|e| e.seq == x).map(|e| e.t).unwrap_or(0);
-					let t_stop = w.trace.iter().find(|e| e.seq > x && matches!(&e.ev, Ev::Stopped { .. })).map(|e| e.t).unwrap_or(w.mono);
+					let t_exit = w
+						.trace
+						.iter()
+						.find(|e| e.seq == x)
+						.map(|e| e.t)
+						.unwrap_or(0);
+					let t_stop = w
+						.trace
+						.iter()
+						.find(|e| e.seq > x && matches!(&e.ev, Ev::Stopped { .. }))
+						.map(|e| e.t)
+						.unwrap_or(w.mono);
 					t_stop.saturating_sub(t_exit) < 1_000_000_000
 				}
 			};
 			cx.batch(rep, kind, &hooks, pre_t, this, &env, false);
 			if !failed && !cut && take == wanted.len() {
-				rep.add(Violation::new("C10", "file_pre_hooks_without_write", pre_t, kind, format!("{}", path.rsplit('/').next().unwrap_or(""))));
+				rep.add(Violation::new(
+					"C10",
+					"file_pre_hooks_without_write",
+					pre_t,
+					kind,
+					format!("{}", path.rsplit('/').next().unwrap_or("")),
+				));
 			}
 			rest = next;
 		}
@@ -354,7 +571,12 @@ pub fn check(r: &RunResult, rep: &mut Report) {
 
 	// ---- B. challenge and clean batches, anchored on the CA's authorization records ----
 	let sendseq = common::tx_send_seq(w);
-	let reply_seq = |tx: u64| -> Option<u64> { w.trace.iter().find(|e| matches!(&e.ev, Ev::NetReply { tx: t, .. } if *t == tx)).map(|e| e.seq) };
+	let reply_seq = |tx: u64| -> Option<u64> {
+		w.trace
+			.iter()
+			.find(|e| matches!(&e.ev, Ev::NetReply { tx: t, .. } if *t == tx))
+			.map(|e| e.seq)
+	};
 	for ca in w.cas.iter() {
 		for az in ca.authzs.iter() {
 			let o = &ca.orders[az.order];
@@ -374,8 +596,16 @@ pub fn check(r: &RunResult, rep: &mut Report) {
 				Some(s) => s,
 				None => continue,
 			};
-			let wire = if az.wildcard { format!("*.{}", az.value) } else { az.value.clone() };
-			let ident = match cert.identifiers.iter().find(|i| expect::ident_wire(i).1 == wire) {
+			let wire = if az.wildcard {
+				format!("*.{}", az.value)
+			} else {
+				az.value.clone()
+			};
+			let ident = match cert
+				.identifiers
+				.iter()
+				.find(|i| expect::ident_wire(i).1 == wire)
+			{
 				Some(i) => i,
 				None => continue,
 			};
@@ -386,7 +616,17 @@ pub fn check(r: &RunResult, rep: &mut Report) {
 			let env = layered(&[proc_env, &cfg.global.env, &cert.env, &ident.env]);
 			// end of this authorization's handling: the fetch of the next authorization of the order,
 			// or the first order poll
-			let later: Vec<u64> = ca.posts.iter().filter(|p| p.order == Some(o.id) && p.tx > fetch_tx && (p.class == "authz" || p.class.starts_with("orderPoll") || p.class == "newOrder")).filter_map(|p| sendseq.get(&p.tx).copied()).collect();
+			let later: Vec<u64> = ca
+				.posts
+				.iter()
+				.filter(|p| {
+					p.order == Some(o.id)
+						&& p.tx > fetch_tx && (p.class == "authz"
+						|| p.class.starts_with("orderPoll")
+						|| p.class == "newOrder")
+				})
+				.filter_map(|p| sendseq.get(&p.tx).copied())
+				.collect();
 			let end_seq = later.into_iter().min().unwrap_or_else(|| {
 				// the attempt may have ended here
 				let my_id = toml_emit::cert_id(cert);
@@ -403,14 +643,40 @@ pub fn check(r: &RunResult, rep: &mut Report) {
 					.map(|e| e.seq)
 					.unwrap_or(u64::MAX)
 			});
-			let belongs = |i: &Inv| {
-				let id = hook_arg(&i.argv, "identifier").unwrap_or("");
-				i.seq > fetch_seq && i.seq < end_seq && hook_arg(&i.argv, "challenge").map(|c| !c.is_empty()).unwrap_or(false) && (id == az.value || id == format!("*.{}", az.value))
-			};
-			let solve: Vec<usize> = cx.invs.iter().enumerate().filter(|(_, i)| belongs(i) && hook_arg(&i.argv, "is_clean_hook") == Some("false")).map(|(k, _)| k).collect();
-			let clean: Vec<usize> = cx.invs.iter().enumerate().filter(|(_, i)| belongs(i) && hook_arg(&i.argv, "is_clean_hook") == Some("true")).map(|(k, _)| k).collect();
-			let cut = w.trace.iter().any(|e| e.seq > fetch_seq && e.seq <= end_seq && matches!(&e.ev, Ev::Stopped { .. }));
-			let failed = cx.batch(rep, "challenge", &cert.hooks, &format!("challenge-{}", typ), &solve, &env, !cut);
+			let belongs =
+				|i: &Inv| {
+					let id = hook_arg(&i.argv, "identifier").unwrap_or("");
+					i.seq > fetch_seq
+						&& i.seq < end_seq && hook_arg(&i.argv, "challenge")
+						.map(|c| !c.is_empty())
+						.unwrap_or(false) && (id == az.value || id == format!("*.{}", az.value))
+				};
+			let solve: Vec<usize> = cx
+				.invs
+				.iter()
+				.enumerate()
+				.filter(|(_, i)| belongs(i) && hook_arg(&i.argv, "is_clean_hook") == Some("false"))
+				.map(|(k, _)| k)
+				.collect();
+			let clean: Vec<usize> = cx
+				.invs
+				.iter()
+				.enumerate()
+				.filter(|(_, i)| belongs(i) && hook_arg(&i.argv, "is_clean_hook") == Some("true"))
+				.map(|(k, _)| k)
+				.collect();
+			let cut = w.trace.iter().any(|e| {
+				e.seq > fetch_seq && e.seq <= end_seq && matches!(&e.ev, Ev::Stopped { .. })
+			});
+			let failed = cx.batch(
+				rep,
+				"challenge",
+				&cert.hooks,
+				&format!("challenge-{}", typ),
+				&solve,
+				&env,
+				!cut,
+			);
 			if failed {
 				continue;
 			}
@@ -418,20 +684,59 @@ pub fn check(r: &RunResult, rep: &mut Report) {
 			let validated = az.fetch_txs.iter().skip(1).any(|(_, st)| st == "valid");
 			if validated {
 				rep.probe("c10.validated_challenges", 1);
-				let cut2 = cut || w.trace.iter().any(|e| e.seq > fetch_seq && e.seq < end_seq.saturating_add(1) && matches!(&e.ev, Ev::Stopped { .. }));
-				cx.batch(rep, "clean", &cert.hooks, &format!("challenge-{}-clean", typ), &clean, &env, !cut2);
+				let cut2 = cut
+					|| w.trace.iter().any(|e| {
+						e.seq > fetch_seq
+							&& e.seq < end_seq.saturating_add(1)
+							&& matches!(&e.ev, Ev::Stopped { .. })
+					});
+				cx.batch(
+					rep,
+					"clean",
+					&cert.hooks,
+					&format!("challenge-{}-clean", typ),
+					&clean,
+					&env,
+					!cut2,
+				);
 				// identical variables except is_clean_hook
 				if let (Some(s), true) = (solve.first(), !clean.is_empty()) {
 					for c in clean.iter() {
-						for key in ["identifier", "identifier_tls_alpn", "challenge", "file_name", "proof", "raw_proof"].iter() {
-							if hook_arg(&cx.invs[*c].argv, key) != hook_arg(&cx.invs[*s].argv, key) {
-								rep.add(Violation::new("C10", "clean_hook_variables_differ", key, "clean", format!("{:?} vs {:?}", hook_arg(&cx.invs[*c].argv, key), hook_arg(&cx.invs[*s].argv, key))));
+						for key in [
+							"identifier",
+							"identifier_tls_alpn",
+							"challenge",
+							"file_name",
+							"proof",
+							"raw_proof",
+						]
+						.iter()
+						{
+							if hook_arg(&cx.invs[*c].argv, key) != hook_arg(&cx.invs[*s].argv, key)
+							{
+								rep.add(Violation::new(
+									"C10",
+									"clean_hook_variables_differ",
+									key,
+									"clean",
+									format!(
+										"{:?} vs {:?}",
+										hook_arg(&cx.invs[*c].argv, key),
+										hook_arg(&cx.invs[*s].argv, key)
+									),
+								));
 							}
 						}
 					}
 				}
 			} else if !clean.is_empty() {
-				rep.add(Violation::new("C10", "clean_hook_without_validation", "", "clean", String::new()));
+				rep.add(Violation::new(
+					"C10",
+					"clean_hook_without_validation",
+					"",
+					"clean",
+					String::new(),
+				));
 			}
 		}
 	}
@@ -443,26 +748,62 @@ pub fn check(r: &RunResult, rep: &mut Report) {
 			Some(e) => e,
 			None => continue,
 		};
-		let cidx = match cfg.certificates.iter().position(|c| toml_emit::cert_id(c) == a.cert) {
+		let cidx = match cfg
+			.certificates
+			.iter()
+			.position(|c| toml_emit::cert_id(c) == a.cert)
+		{
 			Some(i) => i,
 			None => continue,
 		};
 		let cert = &cfg.certificates[cidx];
-		let ids = expect::cert_wire_idents(cert).iter().map(|(_, v)| v.clone()).collect::<Vec<_>>().join(",");
-		let post: Vec<usize> = cx.invs.iter().enumerate().filter(|(_, i)| i.seq > a.begin.seq && i.seq < end.seq && hook_arg(&i.argv, "is_success").map(|s| !s.is_empty()).unwrap_or(false) && hook_arg(&i.argv, "identifiers") == Some(ids.as_str())).map(|(k, _)| k).collect();
+		let ids = expect::cert_wire_idents(cert)
+			.iter()
+			.map(|(_, v)| v.clone())
+			.collect::<Vec<_>>()
+			.join(",");
+		let post: Vec<usize> =
+			cx.invs
+				.iter()
+				.enumerate()
+				.filter(|(_, i)| {
+					i.seq > a.begin.seq
+						&& i.seq < end.seq && hook_arg(&i.argv, "is_success")
+						.map(|s| !s.is_empty())
+						.unwrap_or(false) && hook_arg(&i.argv, "identifiers") == Some(ids.as_str())
+				})
+				.map(|(k, _)| k)
+				.collect();
 		let env = layered(&[proc_env, &cfg.global.env, &cert.env]);
-		cx.batch(rep, "post-operation", &cert.hooks, "post-operation", &post, &env, true);
+		cx.batch(
+			rep,
+			"post-operation",
+			&cert.hooks,
+			"post-operation",
+			&post,
+			&env,
+			true,
+		);
 		for k in post.iter() {
 			let av = &cx.invs[*k].argv;
 			let kt = toml_emit::cert_key_type(cert);
-			let crt = toml_emit::path_of(&w.plan, &w.scratch, &format!("crt:{}", cidx)).unwrap_or_default();
-			let pk = toml_emit::path_of(&w.plan, &w.scratch, &format!("pk:{}", cidx)).unwrap_or_default();
+			let crt = toml_emit::path_of(&w.plan, &w.scratch, &format!("crt:{}", cidx))
+				.unwrap_or_default();
+			let pk = toml_emit::path_of(&w.plan, &w.scratch, &format!("pk:{}", cidx))
+				.unwrap_or_default();
 			let ok = hook_arg(av, "key_type") == Some(kt.as_str())
 				&& hook_arg(av, "certificate_path") == Some(crt.as_str())
 				&& hook_arg(av, "private_key_path") == Some(pk.as_str())
-				&& hook_arg(av, "is_success") == Some(if a.ok == Some(true) { "true" } else { "false" });
+				&& hook_arg(av, "is_success")
+					== Some(if a.ok == Some(true) { "true" } else { "false" });
 			if !ok {
-				rep.add(Violation::new("C10", "post_operation_variables", "", "post-operation", format!("{:?}", av)));
+				rep.add(Violation::new(
+					"C10",
+					"post_operation_variables",
+					"",
+					"post-operation",
+					format!("{:?}", av),
+				));
 			}
 		}
 	}
@@ -471,13 +812,23 @@ pub fn check(r: &RunResult, rep: &mut Report) {
 	if !cut_any {
 		// attempts still open when the run ended were cut at an arbitrary point: their hooks may
 		// lack the anchor that would place them in a batch
-		let open_from: Vec<u64> = atts.iter().filter(|a| a.end.is_none()).map(|a| a.begin.seq).collect();
+		let open_from: Vec<u64> = atts
+			.iter()
+			.filter(|a| a.end.is_none())
+			.map(|a| a.begin.seq)
+			.collect();
 		for (k, i) in cx.invs.iter().enumerate() {
 			if i.exit_seq.is_none() || open_from.iter().any(|b| i.seq > *b) {
 				continue;
 			}
 			if !cx.used.contains(&k) {
-				rep.add(Violation::new("C10", "unexpected_hook_invocation", "", "", format!("{} {:?}", i.name, i.argv.iter().take(4).collect::<Vec<_>>())));
+				rep.add(Violation::new(
+					"C10",
+					"unexpected_hook_invocation",
+					"",
+					"",
+					format!("{} {:?}", i.name, i.argv.iter().take(4).collect::<Vec<_>>()),
+				));
 			}
 		}
 	}
